@@ -31,6 +31,16 @@ func (x *Exec) frameCheck(fr *Frame, mods []*Clause, sc *Scope, from, to *State,
 			}
 			continue
 		}
+		if cl, ok := m.E.(ECall); ok && cl.Fun == "cell" && len(cl.Args) == 1 {
+			// cell(x): the variable / field x itself (for map- or slice-typed x, not its contents)
+			loc, ty := sc.lvalue(cl.Args[0])
+			var ls []leaf
+			x.leaves(ty, loc, &ls)
+			for _, l := range ls {
+				get(l.sort).locs = append(get(l.sort).locs, l.loc)
+			}
+			continue
+		}
 		if v, ok := sc.tryEval(m.E); ok && v.Ty != nil {
 			if mt, isMap := v.Ty.Underlying().(*types.Map); isMap {
 				_, _, md, mv := x.mapKeys(mt)
